@@ -30,6 +30,8 @@ type Recipe struct {
 	Nums []int32  `json:"nums"`
 	Blob []byte   `json:"blob,omitempty"`
 	Salt int      `json:"salt"` // operation index, mixed into the first name: makes values distinct
+	// Big (handshake: appended to the plugin name, a string; response: one more file, a binary)
+	Big *Big `json:"big,omitempty"`
 }
 
 var recipeKinds = []string{"handshake", "type", "function", "service", "request", "response"}
@@ -151,6 +153,9 @@ func (r *Recipe) build() genValue {
 	switch r.Kind {
 	case "handshake":
 		h := &api.HandshakeResponse{Name: c.str(), APIVersion: c.num(), Features: []api.Feature{}}
+		if r.Big != nil {
+			h.Name += string(bigBytes(r.Big.Len, r.Big.Fill))
+		}
 		for i, n := 0, c.upto(3); i < n; i++ {
 			h.Features = append(h.Features, api.Feature(c.num()))
 		}
@@ -191,6 +196,12 @@ func (r *Recipe) build() genValue {
 				lo = c.upto(len(r.Blob))
 			}
 			p.Files[c.str()] = append([]byte{byte(i)}, r.Blob[lo:]...)
+		}
+		if r.Big != nil {
+			p.Files[c.str()+"+big"] = bigBytes(r.Big.Len, r.Big.Fill)
+			if r.Big.At == "pair" {
+				p.Files[c.str()+"+big2"] = r.Big.pairSecond()
+			}
 		}
 		return p
 	}
